@@ -133,3 +133,34 @@ def install():
 def install_time(*modules):
     for m in modules:
         m.time = SIM_TIME
+
+
+_CACHED_FUNCS = None
+
+
+def reset_cachebox_state():
+    """cachebox.cached keeps per-function `locks` and `pending_errors` maps in the wrapper's closure,
+    keyed by the call arguments only (not by database instance): they outlive a run. Clear them so
+    one simulated run cannot leak a pending error or a lock into the next one."""
+    global _CACHED_FUNCS
+    if _CACHED_FUNCS is None:
+        import streamflow.persistence.sqlite as sq
+        import streamflow.deployment.connector.queue_manager as qm
+
+        funcs = []
+        for cls in (sq.SqliteDatabase, qm.SlurmConnector, qm.PBSConnector, qm.FluxConnector):
+            for name, v in vars(cls).items():
+                clo = getattr(v, "__closure__", None)
+                if clo and "_wrapped" in getattr(v, "__qualname__", "") or (clo and hasattr(v, "callback")):
+                    funcs.append(v)
+        _CACHED_FUNCS = funcs
+    for f in _CACHED_FUNCS:
+        for cell in f.__closure__ or ():
+            try:
+                c = cell.cell_contents
+            except ValueError:
+                continue
+            if isinstance(c, dict):
+                c.clear()
+            elif type(c).__name__ == "Cache" and hasattr(c, "clear"):
+                c.clear()
